@@ -22,3 +22,25 @@ def match(open_known, prop, case, violation):
         except Exception:
             continue
     return None
+
+
+def _irregular_inline_zero(src):
+    """Irregular source in which a populated trace carries inline number 0."""
+    if not src or src.get("geom") != "irregular":
+        return False
+    il0, ils = src["il"]
+    n_xl = src["n_xl"]
+    return any(il0 + ils * (g // n_xl) == 0 for g in src["keep"])
+
+
+@predicate("irregular_inline_zero")
+def _k_inline_zero(case, v):
+    return _irregular_inline_zero(case.get("src"))
+
+
+@predicate("irregular_looks_regular")
+def _k_looks_regular(case, v):
+    """Irregular source that segyio's cube metrics call a regular cube (observed on the input by the
+    harness with segyio, recorded in the case as obs.segyio_calls_it_regular)."""
+    src = case.get("src")
+    return bool(src) and src.get("geom") == "irregular" and case.get("obs", {}).get("segyio_calls_it_regular") is True
